@@ -150,7 +150,24 @@ func (g *gsxGen) boolExpr(depth int) ast.Expr {
 // have the same value for all values of the operands - for every operator
 // combination, every literal spelling (decimal and octal) and int as well as
 // float64 operands.
-func gsxC10BoolSimplify() {
+func gsxC10BoolSimplify() { gsxC10Bool(gsxrt.Choose("operandType", 3)) }
+
+// one entry per operand type, so that each gets its own exploration budget
+// (the model keeps the choice under the same name for the replay)
+func gsxC10BoolSimplifyInt() {
+	gsxrt.Assume(gsxrt.Choose("operandType", 3) == 0)
+	gsxC10Bool(0)
+}
+func gsxC10BoolSimplifyFloat() {
+	gsxrt.Assume(gsxrt.Choose("operandType", 3) == 1)
+	gsxC10Bool(1)
+}
+func gsxC10BoolSimplifyNamedFloat() {
+	gsxrt.Assume(gsxrt.Choose("operandType", 3) == 2)
+	gsxC10Bool(2)
+}
+
+func gsxC10Bool(operandType int) {
 	info := gsxInfo("boolExprSimplify")
 	ctx := linter.NewContext(token.NewFileSet(), types.SizesFor("gc", "amd64"))
 	ctx.TypesInfo.Types = map[ast.Expr]types.TypeAndValue{}
@@ -162,7 +179,7 @@ func gsxC10BoolSimplify() {
 	}
 	g := &gsxGen{info: ctx.TypesInfo, num: types.Typ[types.Int]}
 	env := &gsxVals{x: gsxrt.IntRange("x", -64, 64), y: gsxrt.IntRange("y", -64, 64)}
-	switch gsxrt.Choose("operandType", 3) {
+	switch operandType {
 	case 1:
 		g.num, env.float = types.Typ[types.Float64], true
 	case 2:
